@@ -100,41 +100,7 @@ func runC18(r *Run) {
 
 	// ---- R3: the log-list compatibility filter
 	r.Rule("C18.R3")
-	if fn := r.Fn("(*loglist3.LogList).TemporallyCompatible"); fn != nil {
-		keep := func() []ssa.Instruction { return asInstrs(CallsTo(fn, "append")) }
-		logAppends := func() []ssa.Instruction {
-			var out []ssa.Instruction
-			for _, c := range keep() {
-				if glob("*.Logs", r.D.D(CallArgs(c.(ssa.CallInstruction))[0])) {
-					out = append(out, c)
-				}
-			}
-			return out
-		}
-		ti := "p0.Operators[*].Logs[*].TemporalInterval"
-		entry := r.CheckWindow(Window{Name: "TemporallyCompatible", Fn: fn, T: "p1.NotAfter", S: ti + ".StartInclusive", L: ti + ".EndExclusive",
-			PresS: "nil?" + ti, PresL: "nil?" + ti, Outcome: loopOutcome(logAppends)})
-		r.Floor("TemporallyCompatible:keep-sites", len(logAppends()), 2)
-		r.Rule("C18.R4")
-		if entry != nil {
-			// the log kept is the log whose interval was tested
-			for _, c := range logAppends() {
-				el := ""
-				if a := baseAlloc(wSliceBase(CallArgs(c.(ssa.CallInstruction))[1])); a != nil {
-					for _, st := range r.storesAt(fn, "&("+r.D.allocName(a)+"[0])") {
-						el = r.D.D(st.Val)
-					}
-				}
-				ok := glob("p0.Operators[*].Logs[*]", el)
-				for _, f := range []string{"StartInclusive", "EndExclusive"} {
-					for _, op := range r.boundOperands(fn, "p1.NotAfter", ti+"."+f) {
-						ok = ok && op == el+".TemporalInterval."+f
-					}
-				}
-				r.Check("TemporallyCompatible:keeps-tested-log", ok, r.Where(c), "appends "+el+", whose TemporalInterval bounds are the ones compared")
-			}
-		}
-	}
+	c18TemporallyCompatible(r)
 	r.Rule("C18.R3")
 	if fn := r.Fn("(*loglist3.LogList).Compatible"); fn != nil {
 		if c := r.OneCall(fn, "Compatible:temporal-filter", "(*loglist3.LogList).TemporallyCompatible"); c != nil {
@@ -370,4 +336,44 @@ func c18NotAfterForLog(r *Run, fn *ssa.Function) {
 		r.Check("NotAfterForLog:"+base, ok, r.Where(ret), "picks "+base+" + "+delta+" (start + d ≥ start, limit − d < limit, start + (limit−start)/2)")
 	}
 	r.Floor("NotAfterForLog:cases", n, 4)
+}
+
+// c18TemporallyCompatible: the log-list filter's window table (C18.R3) and the
+// identity of the kept log (C18.R4); shared with C17.R4 (who is contacted).
+func c18TemporallyCompatible(r *Run) {
+	if fn := r.Fn("(*loglist3.LogList).TemporallyCompatible"); fn != nil {
+		keep := func() []ssa.Instruction { return asInstrs(CallsTo(fn, "append")) }
+		logAppends := func() []ssa.Instruction {
+			var out []ssa.Instruction
+			for _, c := range keep() {
+				if glob("*.Logs", r.D.D(CallArgs(c.(ssa.CallInstruction))[0])) {
+					out = append(out, c)
+				}
+			}
+			return out
+		}
+		ti := "p0.Operators[*].Logs[*].TemporalInterval"
+		entry := r.CheckWindow(Window{Name: "TemporallyCompatible", Fn: fn, T: "p1.NotAfter", S: ti + ".StartInclusive", L: ti + ".EndExclusive",
+			PresS: "nil?" + ti, PresL: "nil?" + ti, Outcome: loopOutcome(logAppends)})
+		r.Floor("TemporallyCompatible:keep-sites", len(logAppends()), 2)
+		r.Rule("C18.R4")
+		if entry != nil {
+			// the log kept is the log whose interval was tested
+			for _, c := range logAppends() {
+				el := ""
+				if a := baseAlloc(wSliceBase(CallArgs(c.(ssa.CallInstruction))[1])); a != nil {
+					for _, st := range r.storesAt(fn, "&("+r.D.allocName(a)+"[0])") {
+						el = r.D.D(st.Val)
+					}
+				}
+				ok := glob("p0.Operators[*].Logs[*]", el)
+				for _, f := range []string{"StartInclusive", "EndExclusive"} {
+					for _, op := range r.boundOperands(fn, "p1.NotAfter", ti+"."+f) {
+						ok = ok && op == el+".TemporalInterval."+f
+					}
+				}
+				r.Check("TemporallyCompatible:keeps-tested-log", ok, r.Where(c), "appends "+el+", whose TemporalInterval bounds are the ones compared")
+			}
+		}
+	}
 }
